@@ -55,6 +55,7 @@ class Exec(ExprMixin, CallMixin, StmtMixin):
         self.stmt_count = 0
         self.last_filter = None
         self.lemma_instances = set()
+        self.inlined = []
         self._ctx_init()
         self.number_nodes(fn)
 
@@ -95,7 +96,8 @@ class Exec(ExprMixin, CallMixin, StmtMixin):
                 for f in facts:
                     st.assume(f)
         self.pre_pc = list(st.pc)
-        body = front.strip_docstring(self.fn.body)
+        body = self.inline_decorators(front.strip_docstring(self.fn.body))
+        self.number_nodes(ast.Module(body=body, type_ignores=[]))
         outs = self.exec_block(body, st)
         self.exits = []
         for o in outs:
@@ -115,6 +117,49 @@ class Exec(ExprMixin, CallMixin, StmtMixin):
             for ob in self.obligations:
                 ob.hyps.append(d)
         return self.obligations
+
+    WRAPPERS = ("read_op", "write_op", "append_op", "temp_storage_op")
+
+    def inline_decorators(self, body):
+        """Splice the real `op` wrapper bodies of the repository's decorators around the method body."""
+        from .stmt import Inline
+        import copy
+
+        decs = [d for d in front.decorators(self.fn) if d in self.WRAPPERS]
+        for d in reversed(decs):  # innermost decorator first
+            wrapper = self.mod.functions.get("%s.<locals>.op" % d)
+            if wrapper is None:
+                raise Unsupported("decorator %s: wrapper `op` not found" % d, self.fn)
+            wbody = copy.deepcopy(front.strip_docstring(wrapper.body))
+            self.inlined.append("%s.%s.<locals>.op (wrapper of @%s, fingerprint %s)" % (self.mod.name, d, d, front.fingerprint(wrapper)))
+            inner = body
+            hit = [0]
+
+            def is_method_call(v):
+                return isinstance(v, ast.Call) and isinstance(v.func, ast.Name) and v.func.id == "method"
+
+            def splice(stmts):
+                out = []
+                for s_ in stmts:
+                    if isinstance(s_, ast.Return) and is_method_call(s_.value):
+                        hit[0] += 1
+                        out.extend(inner)
+                    elif isinstance(s_, ast.Assign) and is_method_call(s_.value) and isinstance(s_.targets[0], ast.Name):
+                        hit[0] += 1
+                        out.append(Inline(inner, s_.targets[0].id))
+                    else:
+                        for fld in ("body", "orelse", "finalbody"):
+                            if getattr(s_, fld, None):
+                                setattr(s_, fld, splice(getattr(s_, fld)))
+                        for h in getattr(s_, "handlers", []) or []:
+                            h.body = splice(h.body)
+                        out.append(s_)
+                return out
+
+            body = splice(wbody)
+            if hit[0] != 1:
+                raise Unsupported("decorator %s: expected exactly one call of the wrapped method, found %d" % (d, hit[0]), wrapper)
+        return body
 
     def finish(self, o, pre_env):
         con = self.con
@@ -151,6 +196,10 @@ class Exec(ExprMixin, CallMixin, StmtMixin):
                     self.lemma_instances.add(label)
             for label, f in con.ensures(ctx):
                 self.emit(Obligation("%s/%s/ensures[%s]" % (q, st.pathname(), label), pc, f, kind="ensures"))
+            for kind, fn in con.raises.items():
+                spec = fn(self.old_ctx)
+                if spec is not None and spec.get("exact", True):
+                    self.emit(Obligation("%s/%s/ensures[returns-only-when-not-raising:%s]" % (q, st.pathname(), kind), pc, z3.Not(spec["when"]), kind="ensures"))
             self.frame(st, pre_env, pc, "ensures")
             self.exits.append(("return", st.pathname(), pc))
             return
